@@ -236,6 +236,28 @@ def apalache(module, workdir, name, *args, timeout=900):
     raise ToolError("apalache gave no verdict on %s %s:\n%s" % (module, " ".join(args), text[-2000:]))
 
 
+def tlaps(module, workdir, attempts=3, timeout=1800):
+    """re-checks the proofs of spec/<module>.tla with tlapm; returns a dict for the evidence.
+    A failed obligation that persists over the attempts with stretched back-end timeouts is reported
+    as not re-proved (back ends time out on a loaded machine); it is not a verdict on the property."""
+    last = ""
+    for i in range(attempts):
+        cache = os.path.join(workdir, "%s.tlaps-cache-%d" % (module, i))
+        shutil.rmtree(cache, ignore_errors=True)
+        cmd = ["timeout", str(timeout), "tlapm", "--threads", "4", "--stretch", str(6 * (i + 1)), "--cache-dir", cache, module + ".tla"]
+        p = subprocess.run(cmd, cwd=SPEC, stdout=subprocess.PIPE, stderr=subprocess.STDOUT, text=True)
+        shutil.rmtree(cache, ignore_errors=True)
+        last = p.stdout[-3000:]
+        m = re.search(r"All (\d+) obligations? proved", p.stdout)
+        if m:
+            return {"module": module + ".tla", "tool": "tlapm", "obligations_proved": int(m.group(1)), "attempts": i + 1}
+    with open(os.path.join(workdir, module + ".tlaps.out"), "w") as f:
+        f.write(last)
+    m = re.search(r"(\d+)/(\d+) obligations failed", last)
+    return {"module": module + ".tla", "tool": "tlapm", "obligations_proved": None, "attempts": attempts,
+            "not_reproved": m.group(0) if m else "tlapm did not finish"}
+
+
 def vh(*args, timeout=3600, check=True, env_extra=None):
     env = dict(os.environ)
     if env_extra:
